@@ -77,9 +77,9 @@ impl<const N: u32> PxE2<{ N }> {
                     u_z = if ui_c == u_z {
                         0
                     } else if u_z > 0 {
-                        0x_4000_0000
-                    } else {
                         0x_C000_0000
+                    } else {
+                        0x_4000_0000
                     };
                 }
             } else {
@@ -235,7 +235,7 @@ impl<const N: u32> PxE2<{ N }> {
                     frac64_z &= 0x_3FFF_FFFF_FFFF_FFFF;
                     frac_z = (frac64_z >> (reg_z + 34)) as u32; //frac32Z>>16;
 
-                    if reg_z <= (N - 4) {
+                    if reg_z + 4 <= N {
                         bit_n_plus_one =
                             ((0x_8000_0000_0000_0000_u64 >> (N - reg_z - 2)) & frac64_z) != 0;
                         bits_more =
